@@ -367,7 +367,7 @@ QuickTwo == /\ InScope({Bits(416)}, {Bits(18)}, 2, {"differs"})
             /\ \A p \in DOMAIN scn.files : scn.files[p].arg = "walked" => scn.files[p].kind = "reg"
 QuickScope    == LenBound /\ (IsInitial \/ InScope({Bits(416)}, AllUmasks, 1, Statuses) \/ QuickTwo)
 ThoroughScope == LenBound /\ (IsInitial \/ InScope(AllModes, AllUmasks, 1, Statuses)
-                                        \/ InScope({Bits(416), Bits(493)}, {Bits(18)}, 2, Statuses))
+                                        \/ InScope({Bits(416)}, {Bits(18)}, 2, Statuses))
 TinyScenarios == Scn1({Bits(18)}, {Bits(416)})
 Names2 == {"t1", "t2"}
 Names3 == {"t1", "t2", "t3"}
